@@ -116,8 +116,10 @@ Definition read_full (n : nat) : M bytes := fun s =>
             end
   end.
 
-(* reader.ReadUint64 *)
-Definition read_u64 : M N := do b <- read_full 8; ret (un_le64 b).
+(* reader.ReadUint64.  The result is a uint64: [u64] is the identity on the
+   value of 8 real bytes and keeps the model total on lists that hold numbers
+   above 255. *)
+Definition read_u64 : M N := do b <- read_full 8; ret (u64 (un_le64 b)).
 
 (* reader.ReadID: 32 bytes (ChunkIDFromSlice cannot fail on 32 bytes) *)
 Definition read_id : M bytes := read_full 32.
@@ -362,6 +364,15 @@ Definition run_result {A} (m : M A) (b : bytes) : result (A * bytes) :=
   | (Panic p, _, _) => Panic p
   end.
 Definition run_alloc {A} (m : M A) (b : bytes) : N := snd (m b).
+
+(* what C19 asks of a decoder run: it returns or reports an error -- no panic,
+   and the model's fuel was enough *)
+Definition survives {A} (r : result A) : Prop :=
+  match r with
+  | Ok _ => True
+  | Err e => e <> OutOfFuel
+  | Panic _ => False
+  end.
 
 (* FormatDecoder.Next on the bytes [b]: the element (None at the end of the
    stream) and the bytes left for the following call. *)
